@@ -177,6 +177,14 @@ class _Interp(IndexInterp):
         self.choices = []        # decisions taken for the symbolic tests that are not sign tests, in order of evaluation
         self.taken = []          # (test, decision) as evaluated
 
+    def _bind(self, target, value):
+        # `a[<part>] = v` on an array kept as a term: the array is another one from here on (what it holds is no longer what the term says)
+        if isinstance(target, ast.Subscript) and isinstance(target.value, ast.Name) and is_token(self.env.get(target.value.id)) \
+                and self.env[target.value.id][0] in ("call", "array", "read", "op"):
+            self.env[target.value.id] = _tok("overwritten in part", self.env[target.value.id], src(target.slice)[:40], value if isinstance(value, (int, float)) else "value")
+            return
+        super()._bind(target, value)
+
     def ev(self, e):
         if isinstance(e, ast.Attribute) and e.attr == "T":
             b = self.ev(e.value)
@@ -389,6 +397,10 @@ def _column(v):
     return None
 
 
+class Undecided(AnalysisError):
+    """the routine could not be decided in a scenario no structural rule covers either: the check stops (exit 2) instead of falling back"""
+
+
 def r_assignment_program(ctx):
     """-> number of runs, or raises AnalysisError when the routine is outside the fragment (the caller then falls back on the shape rules)"""
     repo = ctx.repo
@@ -400,7 +412,10 @@ def r_assignment_program(ctx):
     ctx.unit(qualname(fn))
     ps = params_of(fn)
     results = []
-    for negative, verbose in ((True, 0), (True, 1), (False, 0), (False, 1)):
+    fpar0, gpar0 = _output_params(repo, fn)
+    extras = [p0 for p0 in ps[1:] if p0 not in (fpar0, gpar0, "verbose")]
+    scenarios = [(True, 0, None), (True, 1, None), (False, 0, None), (False, 1, None)] + [(False, 0, p0) for p0 in extras] + [(True, 0, p0) for p0 in extras]
+    for negative, verbose, extra in scenarios:
         def model():
             pts = [SymObj("Point", label="p%d" % k, counter=k, _is_leaf=True, _value=None) for k in range(3)]
             exs = [SymObj("Expression", label="e%d" % k, counter=k, _is_leaf=True, _value=None, decomposition_dict=None) for k in range(4)]
@@ -416,7 +431,7 @@ def r_assignment_program(ctx):
             # the two solver outputs by position (after self): function values, Gram matrix -- identified by how the method's caller binds them
             fpar, gpar = _output_params(repo, fn)
             for p in ps[1:]:
-                env[p] = verbose if p == "verbose" else None
+                env[p] = verbose if p == "verbose" else (2 if p == extra else None)          # an argument besides the solver's outputs: once absent, once set
             env[fpar] = ("array", "F")
             env[gpar] = ("array", "G")
             return env, pts, exs, comp
@@ -440,9 +455,14 @@ def r_assignment_program(ctx):
                 if "raises" in str(ex):
                     results.append((negative, verbose, "", "the routine raises on a well-formed model: %s" % ex))
                     continue
+                if extra is not None:
+                    raise Undecided("post-solve assignment: the routine takes `%s` besides the solver's outputs; with it set, what the leaves receive cannot be "
+                                    "determined (%s) -- no structural rule covers that path either" % (extra, ex))
                 raise AnalysisError("post-solve assignment not interpretable: %s" % ex)
             msg = None
             path = "; ".join("%s is %s" % (_show(t)[:70], d) for t, d in it.taken)
+            if extra is not None:
+                path = ("`%s` = 2" % extra) + ("; " + path if path else "")
             for k, p in enumerate(pts):
                 col = _column(p.attrs.get("_value"))
                 if col is None:
@@ -513,14 +533,25 @@ def r_expression_eval_program(ctx):
     fn = repo.method("Expression", "eval")
     ctx.unit("Expression.eval")
     has_eq = repo.cls("Expression").find_method("__eq__") is not None
-    pts = [SymObj("Point", label="p%d" % k, counter=k, _is_leaf=True, _value=("vec", "p%d" % k)) for k in range(2)]
+    pts = [SymObj("Point", label="p%d" % k, counter=k, _is_leaf=True, _value=("vec", "p%d" % k)) for k in range(3)]
     exs = [SymObj("Expression", label="e%d" % k, counter=k, _is_leaf=True, _value=Rat.sym("val_e%d" % k)) for k in range(2)]
     for o in pts + exs:
         o.attrs["decomposition_dict"] = {o: 1}
     results = []
-    for order in (0, 1, 2):
+    for order in (0, 1, 2, 3):
         items = [(exs[1], Rat.sym("w1")), ((pts[0], pts[1]), Rat.sym("w2")), (1, Rat.sym("w3"))]
         items = items[order:] + items[:order]
+        want = Rat.sym("w1") * Rat.sym("val_e1") + Rat.sym("w2") * Rat.sym("<p0,p1>") + Rat.sym("w3")
+        what = "w1 * e1 + w2 * <p0, p1> + w3"
+        if order == 3:
+            # a bilinear form over three points written with both orderings of every pair, each with a weight of its own (the product of two
+            # different combinations of the same points): every one of the nine terms counts with its own weight
+            items = [((pts[i0], pts[j0]), Rat.sym("q%d%d" % (i0, j0))) for i0 in range(3) for j0 in range(3)]
+            want = Rat(0)
+            for i0 in range(3):
+                for j0 in range(3):
+                    want = want + Rat.sym("q%d%d" % (i0, j0)) * Rat.sym("<%s,%s>" % tuple(sorted(("p%d" % i0, "p%d" % j0))))
+            what = "sum of q_ij * <p_i, p_j> over all nine ordered pairs of three points"
         me = SymObj("Expression", label="combination", counter=None, _is_leaf=False, _value=None, decomposition_dict=dict(items))
         asked = []
 
@@ -548,16 +579,15 @@ def r_expression_eval_program(ctx):
                 return SymObj("Constraint", label="built by Expression.__eq__")        # truthy, like every object
             return NotImplemented
         env = {params_of(fn)[0]: me, "Expression": ("type", "Expression"), "Point": ("type", "Point"), "tuple": ("type", "tuple"),
-               "int": ("type", "int"), "float": ("type", "float"), "Point.counter": 2, "Expression.counter": 2}
+               "int": ("type", "int"), "float": ("type", "float"), "Point.counter": 3, "Expression.counter": 2}
         it = IndexInterp(env, on_call=on_call, check_asserts=True)
         it.home = (repo, fn._module, "Expression")
         it.on_compare = on_compare
         msg = None
         try:
             ret = it.run(fn.body)
-            want = Rat.sym("w1") * Rat.sym("val_e1") + Rat.sym("w2") * Rat.sym("<p0,p1>") + Rat.sym("w3")
             if not (type(ret).__name__ == "Rat" and (ret - want).is_zero()):
-                msg = "the value of w1 * e1 + w2 * <p0, p1> + w3 is computed as `%s`, expected `%s`" % (ret, want)
+                msg = "the value of %s is computed as `%s`, expected `%s`" % (what, ret, want)
             elif me.attrs.get("_value") is not None and not (type(me.attrs["_value"]).__name__ == "Rat" and (me.attrs["_value"] - want).is_zero()):
                 msg = "the value stored on the combination is `%s`, the value returned `%s`" % (me.attrs["_value"], ret)
         except AnalysisError as ex:
